@@ -10,7 +10,7 @@ import lifecycle_common as lc
 
 LEVEL = "model_checking"
 
-DEFECTS = ["FilterChain_defect%d.cfg" % i for i in range(1, 6)]
+DEFECTS = ["FilterChain_defect%d.cfg" % i for i in range(1, 8)]
 ANSWERS = ("hs", "hc", "d", "ts", "ac", "t")
 OTHER_PROPERTY = ("ended-while-waiting-for-the-upstream", "never-ended-while-waiting-for-the-upstream")
 REAL = {"ipaccess": ("B", 403), "payloadlimit": ("R", 413), "faultinject": ("R", 555)}
@@ -27,6 +27,17 @@ def real_cases():
     return out
 
 
+def invalid_reentry(c, need_predecessor=True):
+    """A re-match / re-choose verdict returned in a receive phase that does not honour it (optionally: with another
+    filter of the same phase configured before the requester)."""
+    for st in c.get("script", []):
+        ph = c["chain"][st["slot"] - 1]
+        if (st["v"] == "rm" and ph != "R") or (st["v"] == "rc" and ph != "H"):
+            if not need_predecessor or any(c["chain"][j] == ph for j in range(st["slot"] - 1)):
+                return "%s@%s" % (st["v"], ph)
+    return None
+
+
 def signature(kind, case):
     ans = "none"
     for st in case.get("script", []):
@@ -35,6 +46,9 @@ def signature(kind, case):
             break
     re_ = "+".join(sorted({st["v"] for st in case.get("script", []) if st["v"] in ("rm", "rc")})) or "none"
     sig = "C14:%s:answer=%s:reentry=%s:env=%s" % (kind, ans, re_, case.get("env"))
+    inv = invalid_reentry(case, need_predecessor=False)
+    if inv:
+        sig += ":invalid=" + inv
     if case.get("real"):
         sig += ":real=" + case["real"]
     return sig
@@ -119,10 +133,14 @@ def run(ctx):
         def dense(c):
             vs = [s["v"] for s in c["script"]]
             return sum(v in ANSWERS for v in vs) + sum(v in ("rm", "rc") for v in vs) >= 2
+        # every case in which a re-match / re-choose is returned in a phase that does not honour it while another
+        # filter of that phase is configured before the requester
+        inval = [c for c in long_ if invalid_reentry(c)]
+        long_ = [c for c in long_ if not invalid_reentry(c)]
         core = [c for c in long_ if dense(c) and c["env"] == "ok"]
-        core = rng.sample(core, min(len(core), 3000))
+        core = rng.sample(core, min(len(core), 2500))
         rest = [c for c in long_ if not (dense(c) and c["env"] == "ok")]
-        picked = short + core + rng.sample(rest, min(len(rest), 3000))
+        picked = short + inval + core + rng.sample(rest, min(len(rest), 2500))
     else:
         # every chain of length <= 3 (exhaustive) and a VERIF_SEED sample of the chains of length 4
         four = [c for c in cases if len(c["chain"]) > 3]
@@ -217,15 +235,16 @@ def run(ctx):
     ctx.cov["exhaustive"] = not q
     ctx.cov["rule"] = ("one case = (chain of <=3 (thorough: 4) filters over {BeforeRoute, AfterRoute, AfterChooseHost, send}, verdict per invocation from "
                        "{continue, stop, termination, hijack+stop, hijack+continue, direct response, TerminateStream sync / from a 2nd "
-                       "goroutine, re-match, re-choose (<=2 re-entries)}, environment in {upstream 200 on a retry route, 503 then 200, "
+                       "goroutine, re-match, re-choose in every receive phase (honoured: <=2 re-entries; not honoured: ends the pass)}, environment in {upstream 200 on a retry route, 503 then 200, "
                        "upstream closes, TerminateStream while the upstream holds the request, TerminateStream after the end}) = one "
                        "complete behaviour of FilterChain.tla (%d); each is one HTTP/1 request through the in-process MOSN; quick replays "
-                       "all chains of length <=2, the answer+re-entry combinations of length 3 and a VERIF_SEED sample of the rest; "
+                       "all chains of length <=2, every length-3 case with a re-match/re-choose in a non-honouring phase behind another filter of "
+                       "that phase, a sample of the answer+re-entry combinations of length 3 and a VERIF_SEED sample of the rest; "
                        "thorough replays every chain of length <=3 and a VERIF_SEED sample of 25000 chains of length 4; "
                        "plus 48 cases with a real ipaccess / payloadlimit / faultinject filter denying in the middle of the chain" % len(cases))
     ctx.assumptions += ["HTTP/1 downstream and upstream, one request at a time per MOSN instance (12-14 instances in parallel)",
-                        "re-match / re-choose are returned only in the phase in which the proxy honours them (AfterRoute / AfterChooseHost), "
-                        "at most 2 per request (the proxy's task loop has 10 iterations: C03)",
+                        "honoured re-match / re-choose (AfterRoute / AfterChooseHost): at most 2 per request (the proxy's task loop has 10 "
+                        "iterations: C03); returned in another receive phase the verdict is invalid and ends the pass like stop",
                         "'no reply' is observed as: ds.clean seen, no ds.reply event, and no bytes on the client connection for 25 ms",
                         "the chain of the request in flight is given to the scripted factories through a driver variable read in "
                         "CreateFilterChain (configured order = order of the 4 factory entries of the listener)"]
